@@ -4,11 +4,12 @@
 import Proofs.DeriveFrame
 namespace SpyneModel.Derive
 
-/-- a public lookup only reads the public parts of records at or below its starting point -/
-theorem chainF_pub (attrs attrs' : List AttrRec) (k : String) (fuel : Nat) :
+/-- a lookup that only reads public parts only depends on the public parts of the records at or below its
+    starting point -/
+theorem chainF_pubsel {α : Type} (attrs attrs' : List AttrRec) (sel : AttrRec → Option α)
+    (hsel : ∀ r r' : AttrRec, r.pub = r'.pub → sel r = sel r') (fuel : Nat) :
     ∀ a, (∀ x, x ≤ a → (attrs'[x]?).map AttrRec.pub = (attrs[x]?).map AttrRec.pub) →
-      (chainF attrs' (fun r => kwLookup r.own k) fuel a).map (·.2)
-        = (chainF attrs (fun r => kwLookup r.own k) fuel a).map (·.2) := by
+      chainF attrs' sel fuel a = chainF attrs sel fuel a := by
   induction fuel with
   | zero => intro a _; simp [chainF]
   | succ fuel ih =>
@@ -24,10 +25,13 @@ theorem chainF_pub (attrs attrs' : List AttrRec) (k : String) (fuel : Nat) :
       cases h2 : attrs'[a]? with
       | none => simp [h1, h2] at ha
       | some r' =>
-        simp only [h1, h2, Option.map_some, AttrRec.pub, Option.some.injEq, Prod.mk.injEq] at ha
-        obtain ⟨ho, hp⟩ := ha
-        simp only [ho, hp]
-        cases kwLookup r.own k with
+        simp only [h1, h2, Option.map_some, Option.some.injEq] at ha
+        have hs := hsel r' r ha
+        have hp : r'.parent = r.parent := by
+          have := congrArg (fun p => p.2.1) ha
+          simpa [AttrRec.pub] using this
+        simp only [hs, hp]
+        cases sel r with
         | some v => rfl
         | none =>
           simp only
@@ -40,10 +44,87 @@ theorem chainF_pub (attrs attrs' : List AttrRec) (k : String) (fuel : Nat) :
               exact ih p (fun x hx => hpub x (by omega))
             · rfl
 
+theorem chainF_pub (attrs attrs' : List AttrRec) (k : String) (fuel : Nat) :
+    ∀ a, (∀ x, x ≤ a → (attrs'[x]?).map AttrRec.pub = (attrs[x]?).map AttrRec.pub) →
+      (chainF attrs' (fun r => kwLookup r.own k) fuel a).map (·.2)
+        = (chainF attrs (fun r => kwLookup r.own k) fuel a).map (·.2) := by
+  intro a h
+  rw [chainF_pubsel attrs attrs' (fun r => kwLookup r.own k) (fun r r' e => by
+    have : r.own = r'.own := by
+      have := congrArg (fun p => p.1) e
+      simpa [AttrRec.pub] using this
+    simp only [this]) fuel a h]
+
 theorem attrAt_ext {n na : Nat} {T : List Nat} {h h' : Heap} (e : Ext n na T h h') (a : Nat) (ha : a < na)
     (k : String) : attrAt h' a k = attrAt h a k := by
   unfold attrAt chain chainH
   exact chainF_pub h.attrs h'.attrs k (a + 1) a (fun x hx => e.attrs x (by omega))
+
+theorem colSel_pub (r r' : AttrRec) (e : r.pub = r'.pub) : colSel r = colSel r' := by
+  have h1 : r.colArgs = r'.colArgs := by
+    have := congrArg (fun p => p.2.2.1) e
+    simpa [AttrRec.pub] using this
+  have h2 : r.colRef = r'.colRef := by
+    have := congrArg (fun p => p.2.2.2) e
+    simpa [AttrRec.pub] using this
+  simp only [colSel, h1, h2]
+
+/-- the resolved `sqla_column_args` of an existing record is part of the frame -/
+theorem colH_ext {n na : Nat} {T : List Nat} {h h' : Heap} (e : Ext n na T h h') (a : Nat) (ha : a < na) :
+    colH h' a = colH h a := by
+  unfold colH chainH
+  rw [chainF_pubsel h.attrs h'.attrs colSel colSel_pub (a + 1) a (fun x hx => e.attrs x (by omega))]
+  cases hch : chainF h.attrs colSel (a + 1) a with
+  | none => rfl
+  | some p =>
+    obtain ⟨via, v⟩ := p
+    cases v with
+    | inl d => rfl
+    | inr x =>
+      simp only
+      split
+      · rename_i hlt
+        -- the walk only visits records at or below its start
+        have hvia : via ≤ a := by
+          have : ∀ fuel s, chainF h.attrs colSel fuel s = some (via, Sum.inr x) → via ≤ s := by
+            intro fuel
+            induction fuel with
+            | zero => intro s hs; simp [chainF] at hs
+            | succ fuel ih =>
+              intro s hs
+              simp only [chainF] at hs
+              cases hrec : h.attrs[s]? with
+              | none => simp [hrec] at hs
+              | some r =>
+                simp only [hrec] at hs
+                cases hsel : colSel r with
+                | some v => simp [hsel] at hs; omega
+                | none =>
+                  simp only [hsel] at hs
+                  cases hpar : r.parent with
+                  | none => simp [hpar] at hs
+                  | some p =>
+                    simp only [hpar] at hs
+                    split at hs
+                    · have := ih p hs; omega
+                    · cases hs
+          exact this (a + 1) a hch
+        have hx := e.attrs x (by omega)
+        cases h1 : h.attrs[x]? with
+        | none =>
+          cases h2 : h'.attrs[x]? with
+          | none => rfl
+          | some r' => simp [h1, h2] at hx
+        | some r =>
+          cases h2 : h'.attrs[x]? with
+          | none => simp [h1, h2] at hx
+          | some r' =>
+            simp only [h1, h2, Option.map_some, Option.some.injEq] at hx
+            have : r'.colArgs = r.colArgs := by
+              have := congrArg (fun p => p.2.2.1) hx
+              simpa [AttrRec.pub] using this
+            simp only [this]
+      · rfl
 
 /-- shallow observation of a class whose record did not change, when its `Attributes` lie in the base region -/
 theorem obs1_ext (F : Facts15) {n na : Nat} {T : List Nat} {h h' : Heap} (e : Ext n na T h h')
@@ -56,7 +137,7 @@ theorem obs1_ext (F : Facts15) {n na : Nat} {T : List Nat} {h h' : Heap} (e : Ex
   | some cl =>
     have ha := hr cl hcl
     have hat : ∀ k, attrAt h' cl.attrs k = attrAt h cl.attrs k := fun k => attrAt_ext e _ ha k
-    simp only [verdicts, hat]
+    simp only [verdicts, hat, colH_ext e _ ha]
 
 end SpyneModel.Derive
 
@@ -68,7 +149,7 @@ def Op.derives : Op → Bool
   | .insert .. => false
   | _ => true
 
-theorem good_opProg_derive (F : Facts15) (hF : F.mandRule = .copies) (fuel : Nat) (op : Op) (hop : op.derives = true)
+theorem good_opProg_derive (F : Facts15) [DeepCopy F] (hF : F.mandRule = .copies) (fuel : Nat) (op : Op) (hop : op.derives = true)
     (n na : Nat) : Good n na [] (opProg F fuel op) (fun r => ∀ id, r = some id → n ≤ id) := by
   cases op with
   | customize src kw ca caa =>
@@ -89,11 +170,11 @@ theorem good_opProg_derive (F : Facts15) (hF : F.mandRule = .copies) (fuel : Nat
     exact Good.map _ (good_xmlattrOp _ _) (fun a ha id e => by cases e; exact ha)
 
 /-- a deriving operation changes no existing class and no public attribute of an existing `Attributes` -/
-theorem derive_ext (F : Facts15) (hF : F.mandRule = .copies) (fuel : Nat) (h : Heap) (op : Op)
+theorem derive_ext (F : Facts15) [DeepCopy F] (hF : F.mandRule = .copies) (fuel : Nat) (h : Heap) (op : Op)
     (hop : op.derives = true) : Ext h.cls.length h.attrs.length [] h (apply F fuel h op).heap :=
   (good_opProg_derive F hF fuel op hop _ _ h (Nat.le_refl _) (Nat.le_refl _)).1
 
-theorem derive_new_id (F : Facts15) (hF : F.mandRule = .copies) (fuel : Nat) (h h' : Heap) (op : Op)
+theorem derive_new_id (F : Facts15) [DeepCopy F] (hF : F.mandRule = .copies) (fuel : Nat) (h h' : Heap) (op : Op)
     (hop : op.derives = true) (id : Nat) (hr : apply F fuel h op = .ok h' (some id)) : h.cls.length ≤ id :=
   (good_opProg_derive F hF fuel op hop _ _ h (Nat.le_refl _) (Nat.le_refl _)).2 h' (some id) hr id rfl
 
